@@ -46,6 +46,10 @@ SCENARIOS = {
     'main_emptied_dir_kept': dict(regs=[('p', '!'), ('x', 'role:a'), ('nz', 'role:zz')], main_old={'x': 'role:a', 'z': '@'},
                                   main_new={}, dir_old={'p': 'role:a', 'default': '@'}, dir_new={'p': 'role:a', 'default': '@'},
                                   query='p', no_model=True),
+    # everything the request needs is in the main file, before and after the edit: the store is replaced by one assignment,
+    # so even a decider that is already past its own load step sees the complete old or the complete new rules
+    'main_only_allow': dict(regs=[('x', 'role:a')], main_old={'a': '@', 'x': 'role:a'}, main_new={'a': '@', 'x': 'role:b'},
+                            dir_old=None, dir_new=None, query='a', no_model=True),
     # both threads evaluate a rule built from references; the files do not change the referenced rules
     'alias_evaluation': dict(regs=[('x', 'role:a')], main_old={'admin': 'role:a', 'owner': 'role:a or role:b', 'x': 'role:a',
                                                               'both': 'rule:admin and rule:owner and not rule:nobody',
@@ -59,7 +63,7 @@ SCENARIOS = {
 }
 
 
-def setup(sc):
+def setup(sc, late_edit=False):
     d = fsharness.scratch('opverif-c20-')
     os.mkdir(os.path.join(d, 'policy.d'))
     import json
@@ -88,19 +92,29 @@ def setup(sc):
         return e
     e = mk()
     old = impl.outcome(lambda: e.enforce(sc['query'], {}, dict(CREDS)))
-    if main_new != main_old:
-        _w(os.path.join(d, 'policy.yaml'), json.dumps(main_new), 2000)
-    if sc['dir_new'] != sc['dir_old']:
-        _w(os.path.join(d, 'policy.d', 'a.yaml'), json.dumps(sc['dir_new']), 2000)
-    return d, e, old, mk
+
+    def edit():
+        if main_new != main_old:
+            _w(os.path.join(d, 'policy.yaml'), json.dumps(main_new), 2000)
+        if sc['dir_new'] != sc['dir_old']:
+            _w(os.path.join(d, 'policy.d', 'a.yaml'), json.dumps(sc['dir_new']), 2000)
+    if not late_edit:
+        edit()
+    return d, e, old, mk, edit
 
 
-def one(sc, segments):
-    d, e, old, mk = setup(sc)
+def one(sc, segments, late_edit=False):
+    """late_edit: the files change only when the second thread starts — the first thread (the decider) may by then be
+    before, inside or past its own load step, which found nothing to reload."""
+    d, e, old, mk, edit = setup(sc, late_edit)
     try:
         q = sc['query']
         fn = lambda: e.enforce(q, {}, dict(CREDS))    # noqa
-        il = sched.Interleaver([fn, fn], segments)
+
+        def fn_edit_first():
+            edit()
+            return e.enforce(q, {}, dict(CREDS))
+        il = sched.Interleaver([fn, fn_edit_first if late_edit else fn], segments)
         res = il.run()
         fresh = mk()
         new = impl.outcome(lambda: fresh.enforce(q, {}, dict(CREDS)))
@@ -149,6 +163,29 @@ def _explore(arg):
             nseg = len(segs)
             outs, old, new, final, counts, pauses = one(sc, segs)
             res.append((segs if nseg == 3 else segs + ['beyond'], outs, old, new, final, pauses, q))
+        # the decider D (thread 0) is preempted before, during or after its own load step — which finds nothing to reload
+        # yet —, then the files change and the reloader R (thread 1) runs j lines, then D finishes (two context switches
+        # up to D's decision), then R finishes
+        outs, old, new, final, counts, _ = one(sc, [(0, None), (1, None)], late_edit=True)
+        n_d, n_r = counts[0], counts[1]
+        stacks = []
+        for k in range(1, n_d + 1):
+            _, _, _, _, _, pauses = one(sc, [(0, k), (1, None), (0, None)], late_edit=True)
+            stacks.append(pauses[0][1] if pauses else [])
+        after = next((i + 1 for i, st in enumerate(stacks) if st == ['enforce'] and any('load_rules' in x for x in stacks[:i])), n_d)
+        inside = [i + 1 for i, st in enumerate(stacks) if 'load_rules' in st]
+        ks = sorted({1, inside[len(inside) // 2] if inside else 1, after})
+        jstep = 3
+        if thorough and q == base['query']:
+            ks = sorted(set(range(1, n_d + 1, 2)) | {after})
+            jstep = 3
+        for k in ks:
+            # a decider already past its load step repairs nothing: that is where a narrow window shows, so every line j
+            for j in range(1, n_r + 1, 1 if (k == after and q == base['query']) else jstep):
+                segs = [(0, k), (1, j), (0, None), (1, None)]
+                outs, old, new, final, counts, pauses = one(sc, segs, late_edit=True)
+                dpos = 'in_load' if 'load_rules' in stacks[k - 1] else ('after_load' if k >= after else 'before_load')
+                res.append((segs + ['late:' + dpos], outs, old, new, final, pauses, q))
     return res
 
 
@@ -168,6 +205,7 @@ def run(ctx, rep):
         for segs, outs, old, new, final, pauses, query in explored[name]:
             total_sched += 1
             beyond = segs[-1] == 'beyond'
+            late = isinstance(segs[-1], str) and segs[-1].startswith('late:')
             # a thread is the "reloader" if it was preempted inside load_rules, else a "bystander" (it ran its own
             # load step without interruption); the window is open if any thread was preempted inside load_rules
             in_load = any('load_rules' in p[1] for p in pauses)
@@ -182,6 +220,13 @@ def run(ctx, rep):
                 if o not in (old, new):
                     label = name if query == sc['query'] else '%s/request=%s' % (name, query)
                     key = 'c20:%s|thread=%s|paused_in_load_rules=%s|decision=%s' % (label, role.get(tid, 'bystander'), in_load, o)
+                    if late:
+                        # thread 0 is the decider (its load step had nothing to reload), thread 1 the reloader; what matters
+                        # is where the decider stood when the files changed and whether the reloader was inside load_rules
+                        dpos = segs[-1][5:]
+                        r_in = len(pauses) > 1 and 'load_rules' in pauses[1][1]
+                        key = 'c20late:%s|thread=%s|decider=%s|reloader_in_load_rules=%s|decision=%s' % (
+                            label, 'decider' if tid == 0 else 'reloader', dpos, r_in, o)
                     if beyond:
                         beyond_q[key.replace('c20:', 'c20-3switch:')] += 1      # three context switches: outside the quantifier
                         continue
@@ -191,9 +236,13 @@ def run(ctx, rep):
                              % (name, query, old, new, 'AB'[tid], o, segs[0][1], where, pauses[0][1] if pauses else []),
                              {'scenario': name, 'query': query, 'segments': segs, 'old': old, 'new': new, 'outcomes': outs})
             if final != new and not beyond:
-                rep.fail('c20final:%s|paused_in_load_rules=%s' % (name if query == sc['query'] else '%s/request=%s' % (name, query), in_load),
+                rep.fail('c20final%s:%s|paused_in_load_rules=%s' % ('late' if late else '', name if query == sc['query'] else '%s/request=%s' % (name, query), in_load),
                          'scenario %s (request %s): after both threads finished the enforcer decides %s, a fresh one decides %s '
                          '(schedule %r)' % (name, query, final, new, segs), {'scenario': name, 'query': query, 'segments': segs})
+            if late:
+                rep.stat('sched_late_edit:%s' % name)
+                rep.case(key='%s|%s|%r' % (name, query, segs), nontrivial=True)
+                continue
             if query != sc['query'] or beyond:
                 rep.stat('sched_extra:%s' % ('three_switches' if beyond else 'other_request'))
                 rep.case(key='%s|%s|%r' % (name, query, segs), nontrivial=True)
